@@ -8,6 +8,7 @@
    `is_max/is_min m l` = m is a maximum/minimum of l; `first_index m l n` = n is the first position of m in l.
    All statements are for ALL shapes, widths, max_bits and values. *)
 From PyRTL Require Import Base.PyZ Lib.Matrix Lib.MatrixProofs Gen.MatrixRules Lib.MatrixGen.
+From PyRTL Require Import Gen.MatrixKeys Lib.MatrixKeysBase Lib.MatrixKeysGen.
 
 (* ---------------------------------------------------------------- translator tie
    Gen/MatrixRules.v is regenerated from pyrtl/rtllib/matrix.py on every run (py/genfrag_C19.py); the
@@ -91,6 +92,66 @@ Proof.
                      (conj eq_refl (conj eq_refl eq_refl))))))))))).
 Qed.
 Print Assumptions C19_gen_max_bits.
+
+(* ---------------------------------------------------------------- translator tie: key normalisation
+   Gen/MatrixKeys.v is the `if isinstance(key, tuple):` fragment of __getitem__ and of __setitem__ (int
+   normalisation, step test, start/stop defaults and negative bounds, the two bounds checks) executed
+   symbolically from the CURRENT source for every combination of int / slice keys; `keys_model kg r c kr kc`
+   pairs the model's per-dimension resolution (key_get / key_set, on which every getitem/setitem theorem
+   below rests).  None = the code raises. *)
+Theorem C19_gen_getitem_keys : forall r c kr kc,
+  match kr, kc with
+  | KInt x, KInt y => getitem_keys_II_gen r c x y
+  | KInt x, KSl a b st => getitem_keys_IS_gen r c x a b st
+  | KSl a b st, KInt y => getitem_keys_SI_gen r c a b st y
+  | KSl a b st, KSl a' b' st' => getitem_keys_SS_gen r c a b st a' b' st'
+  end = keys_model key_get r c kr kc.
+Proof. exact gen_getitem_keys. Qed.
+Print Assumptions C19_gen_getitem_keys.
+
+Theorem C19_gen_setitem_keys : forall r c kr kc,
+  match kr, kc with
+  | KInt x, KInt y => setitem_keys_II_gen r c x y
+  | KInt x, KSl a b st => setitem_keys_IS_gen r c x a b st
+  | KSl a b st, KInt y => setitem_keys_SI_gen r c a b st y
+  | KSl a b st, KSl a' b' st' => setitem_keys_SS_gen r c a b st a' b' st'
+  end = keys_model key_set r c kr kc.
+Proof. exact gen_setitem_keys. Qed.
+Print Assumptions C19_gen_setitem_keys.
+
+(* m[k] and m[k] = v with one int: slice(start, start+1, None) then self[key, :] *)
+Theorem C19_gen_single_int_key :
+  (forall r c k,
+     match getitem_intkey_gen r c k with
+     | Some (s, e) => getitem_keys_SS_gen r c (Some s) (Some e) None None None None
+     | None => None
+     end = keys_model key_get r c (KInt k) (KSl None None None)) /\
+  (forall r c k,
+     match setitem_intkey_gen r c k with
+     | Some (s, e) => setitem_keys_SS_gen r c (Some s) (Some e) None None None None
+     | None => None
+     end = keys_model key_set r c (KInt k) (KSl None None None)).
+Proof. exact (conj gen_getitem_intkey gen_setitem_intkey). Qed.
+Print Assumptions C19_gen_single_int_key.
+
+(* what __getitem__ does with the resolved bounds: single-element test, result shape and source
+   coordinates are the regenerated expressions *)
+Theorem C19_gen_getitem_block : forall a kr kc,
+  mgetitem a kr kc =
+  match keys_model key_get (Z.of_nat (rows_of a)) (Z.of_nat (cols_of a)) kr kc with
+  | None => None
+  | Some (rs, re, cs, ce) =>
+      let nr := getitem_result_rows_gen rs re cs ce in
+      let nc := getitem_result_cols_gen rs re cs ce in
+      if (nr <=? 0) || (nc <=? 0) then None
+      else if getitem_is_scalar_gen rs re cs ce
+           then Some (MkMx (bits a) (maxb a) [[el a (Z.to_nat rs) (Z.to_nat cs)]])
+           else Some (mnew (Z.to_nat nr) (Z.to_nat nc) (bits a) (maxb a) (fun i j =>
+                  el a (Z.to_nat (getitem_src_row_gen rs re cs ce (Z.of_nat i) (Z.of_nat j)))
+                       (Z.to_nat (getitem_src_col_gen rs re cs ce (Z.of_nat i) (Z.of_nat j)))))
+  end.
+Proof. exact gen_getitem_block. Qed.
+Print Assumptions C19_gen_getitem_block.
 
 (* ---------------------------------------------------------------- WireVector <-> Matrix *)
 Theorem C19_layout_inverse :
